@@ -224,13 +224,17 @@ def main(replay=None):
 
     # ---------------- (c) write faults -------------------------------------------------------------------------------------
     wdist = {}; wmis = 0; wexact = 0; wn = 0
-    KN = {0: "Vector", 1: "Matrix", 2: "SymMatrix", 3: "SparseMatrix"}; FM = ["txt", "bin", "tex", "mat"]
+    KN = {0: "Vector", 1: "Matrix", 2: "SymMatrix", 3: "SparseMatrix", 4: "Matrix(2 x n)", 5: "Matrix(n x 2)"}; FM = ["txt", "bin", "tex", "mat"]
     if rp is None or rp.get("kind") == "write":
         combos = [(0, 0), (0, 1), (1, 0), (1, 1), (1, 2), (2, 0), (2, 1), (3, 0), (3, 1)]
         probe = []
         for kind, fmt in combos:
             for n in ([3, 40] if quick else [1, 3, 40, 300]):
                 probe.append((kind, fmt, n))
+        # wide and tall matrices (kinds 4, 5): lines longer than the stream buffer, totals below and above 8 KB; large vectors / symmetric
+        for fmt in (0, 1, 2):
+            for kind, n in ((4, 300), (4, 2500), (5, 300), (5, 2500)): probe.append((kind, fmt, n))
+        for fmt in (0, 1): probe += [(0, fmt, 3000), (2, fmt, 90)]
         pc = ["c18 4 %d %d %d -3" % p for p in probe]
         rc, po, err = core.run_harness(hb, pc, wd, tag="wp")
         wcases = []; wmodel = []; meta = []
@@ -240,6 +244,7 @@ def main(replay=None):
                 ck.violation("save %s.%s n=%d without fault" % (KN[kind], FM[fmt], n), "an unfaulted save failed: `%s`" % o, dict(kind="write", wcases=["c18 4 %d %d %d -3" % (kind, fmt, n)], impl=[o])); continue
             total = int(t[1])
             ks = sorted(set([0, 1, 3, 4, 7, 8, 9, total - 1, total // 2, total, total + 5] + [rng.randint(0, total) for _ in range(6 if quick else 40)]))
+            if total > 8192: ks = sorted(set(ks + [1023, 1024, 1025, 4096, 8191, 8192, 8193, total - 8192, total - 1024]))
             for k in ks + [-1, -2]:
                 wcases.append("c18 4 %d %d %d %d" % (kind, fmt, n, k)); meta.append((kind, fmt, n, k, total))
                 opens = 0 if k == -2 else 1; cap = 0 if k == -1 else (10 ** 12 if k == -2 else k)
@@ -375,17 +380,21 @@ def main(replay=None):
         m3 = models.nested([0.8, 0.9, 1.0], [1.0, 0.0125, 1.0], level=0, names=["cortex", "skull", "scalp"])
         mdir = os.path.join(wd, "head2"); g2, c2 = models.write_model(m3, mdir)
         sp = os.path.join(mdir, "sens.txt"); open(sp, "w").write("0.1 0.2 1.1\n0.3 -0.2 1.05\n-0.4 0.1 1.0\n")
-        envw = {"C18_GEOM": g2, "C18_COND": c2, "C18_SENSORS": sp}
-        rc, po, err = core.run_harness(hb, ["c18 6 %d -3" % w for w in WR], wd, tag="xp", env=envw)
+        mL = models.nested([0.8, 0.9, 1.0], [1.0, 0.0125, 1.0], level=3, names=["cortex", "skull", "scalp"])
+        gL, cL = models.write_model(mL, os.path.join(wd, "head2L"))
+        envw = {"C18_GEOM": g2, "C18_COND": c2, "C18_SENSORS": sp, "C18_GEOM_L": gL, "C18_COND_L": cL}
+        probes = [(w, 0) for w in WR] + [(w, 1) for w in range(5)]        # every writer small (< 8 KB); mesh writers also large
+        rc, po, err = core.run_harness(hb, ["c18 6 %d -3 %d" % p for p in probes], wd, tag="xp", env=envw)
         xc = []; xm = []; xmeta = []
-        for w, o in zip(WR, po):
+        for (w, big), o in zip(probes, po):
             t = o.split()
             if t[0] != "0" or int(t[1]) <= 0:
                 if w == 4: continue                 # vtk writer not available in this build
-                ck.violation("%s without fault" % WR[w], "an unfaulted save failed: `%s`" % o, dict(kind="writer", cases=["c18 6 %d -3" % w], impl=[o])); continue
+                ck.violation("%s without fault" % WR[w], "an unfaulted save failed: `%s`" % o, dict(kind="writer", cases=["c18 6 %d -3 %d" % (w, big)], impl=[o])); continue
             total = int(t[1])
-            for k in sorted(set([0, 1, total // 2, total - 1, total, total + 5] + [rng.randint(0, total) for _ in range(3)])) + [-1, -2, -4, -5]:
-                xc.append("c18 6 %d %d" % (w, k)); xmeta.append((w, k, total))
+            kk = [0, 1, total // 2, total - 1, total, total + 5] + [rng.randint(0, total) for _ in range(3)] + ([4096, 8191, 8192, 8193, total - 8192, total - 100] if total > 8192 else [])
+            for k in sorted(set(x for x in kk if x >= 0)) + [-1, -2, -4, -5]:
+                xc.append("c18 6 %d %d %d" % (w, k, big)); xmeta.append((w, k, total))
                 xm.append("c18 5 %d %d %d" % (0 if k in (-2, -4, -5) else 1, 0 if k == -1 else (10 ** 12 if k < 0 else k), total))
         if rp is not None and rp.get("kind") == "writer": xc = rp["cases"]; xm = rp["model_cases"]; xmeta = [tuple(x) for x in rp["meta"]]
         if xc:
